@@ -973,7 +973,6 @@ func (fr *Frame) nextFacts(x *ssa.Next, v Val) {
 	}
 }
 
-
 // tick: charge steps to the ghost cost counter (cost mode only)
 func (fr *Frame) tick(t string) {
 	if fr.q.opts == nil || !fr.q.opts.Cost || fr.cur.st == nil {
